@@ -1,0 +1,11 @@
+// Copyright 2022 The Go Authors. All rights reserved.
+// Use of this source code is governed by a BSD-style
+// license that can be found in the LICENSE file.
+
+//go:build !verif
+
+package benchtab
+
+import "golang.org/x/perf/benchproc"
+
+func verifPoint(point string, table *Table, row, col benchproc.Key) {}
